@@ -1,5 +1,6 @@
 import Zed.Model.Sexp
 import Zed.Model.Compare
+import Zed.Model.MergeOp
 /-!
   Driver glue for C06.  A value travels as `(<type value hex> <zcode body hex | null>)`.
 
@@ -9,6 +10,11 @@ import Zed.Model.Compare
        answers `fast|ref|spill` — tags in the order given by the model of sortStableIndices
        on the whole input, by the plain Comparator sort, and by the k-way merge of the sorted
        chunks
+  `(C06 merge <nullsMax> (<desc>…) (<parent>…) (<pull>…))` with parent = `(<chunk>…)` (its batches)
+       and pull = `(<parent index>…)` (where each value of one Pull result of the real merge.Op
+       came from): answers `ok <tags of pull 1>/<tags of pull 2>/…` when the run is one the model
+       of merge.Op allows (value limit of the read path = the regenerated PullerBatchValues), else
+       `reject <index of the first Pull that is not allowed>`
 -/
 namespace Zed.Drv.C06
 open Zed Zed.Sexp
@@ -79,6 +85,21 @@ def handle : List Sexp → String
     | some limit, some bs =>
       let dirs := dirs.map fun | .atom "1" => true | _ => false
       tags (sortOp (nf == "1") (rev == "1") dirs limit bs)
+    | _, _ => "bad-val"
+  | [.atom "merge", .atom nm, .list dirs, .list parents, .list pulls] =>
+    let parentOf : Sexp → Option (List (List Row)) := fun
+      | .list bs => bs.mapM chunkOf
+      | _ => none
+    let pullOf : Sexp → Option (List Nat) := fun
+      | .list is => is.mapM fun | .atom a => a.toNat? | _ => none
+      | _ => none
+    match parents.mapM parentOf, pulls.mapM pullOf with
+    | some ps, some obs =>
+      let dirs := dirs.map fun | .atom "1" => true | _ => false
+      let le := leRowM (nm == "1") dirs
+      match acceptRun le pullerBatchValues ps obs with
+      | some outs => "ok " ++ "/".intercalate (outs.map tags)
+      | none => s!"reject {rejectAt le pullerBatchValues ps obs 0}"
     | _, _ => "bad-val"
   | _ => "bad-op"
 
